@@ -61,6 +61,12 @@ def Statement_namespaces_exact : Prop :=
   ∀ (s : State) (r : ReadOp) (n : Nat), WF s →
     (n ∈ (s.run r).1.ns ↔ n ∈ s.ns ∨ r.mayBindNs s n)
 
+/-- a read binds everything it is going to bind the FIRST time: the same read again adds no prefix
+    (with `read_frame` and `read_deterministic`: reading twice is reading once, on all three axes) -/
+def Statement_bindings_idempotent : Prop :=
+  ∀ (s : State) (r : ReadOp) (n : Nat), WF s →
+    (n ∈ ((s.run r).1.run r).1.ns ↔ n ∈ (s.run r).1.ns)
+
 /-- a read through a `Graph` VIEW of one context (`ds.get_context(g)`, any `g` — also an unknown or empty one):
     quads, registered graphs (literally: a view never registers the default graph) and the dataset's configuration
     unchanged, bindings only grow, and the same read again gives the same answer -/
@@ -193,6 +199,18 @@ theorem namespaces_exact : Statement_namespaces_exact := by
         exact (contextsCall_known_mem s q.2).mpr (Or.inl (h.1 q hq))
       | qname nsOf t => exact getQName_ns_gen h1
       | _ => exact False.elim h1
+
+theorem bindings_idempotent : Statement_bindings_idempotent := by
+  intro s r n h
+  have f := run_frame h r
+  have hw := run_wf h r
+  rw [namespaces_exact _ r n hw]
+  constructor
+  · rintro (h1 | h1)
+    · exact h1
+    · exact (namespaces_exact s r n h).mpr
+        (Or.inr ((mayBindNs_congr f.quads f.union f.dname f.isDataset r n).mp h1))
+  · exact Or.inl
 
 theorem view_read_frame : Statement_view_read_frame := by
   intro s g r h
